@@ -143,6 +143,7 @@ type Run struct {
 	Probes  map[string]int
 	NonTriv map[string]bool
 	Samples []any
+	MetaInjs []*InjErr
 	Budget  bool // step or time budget hit (inconclusive run, never a violation)
 	Dirty   bool
 
@@ -177,6 +178,26 @@ func NewRun(seed int64, scenario string, w, s, f *Tape) *Run {
 		seqs:     map[string]int{}, FaultCt: map[string]int{}, Probes: map[string]int{}, NonTriv: map[string]bool{},
 		prio: map[string]int{}, changePts: map[int]bool{},
 	}
+}
+
+// noteMetaInj records an error injected at a MetaStore seam (Site starts with the operation tag).
+func (r *Run) noteMetaInj(e *InjErr) {
+	r.mu.Lock()
+	r.MetaInjs = append(r.MetaInjs, e)
+	r.mu.Unlock()
+}
+
+// MetaInjsFor returns the MetaStore injections whose site begins with tag.
+func (r *Run) MetaInjsFor(tag string) []*InjErr {
+	r.mu.Lock()
+	defer r.mu.Unlock()
+	var out []*InjErr
+	for _, e := range r.MetaInjs {
+		if e.Site == tag || strings.HasPrefix(e.Site, tag+" ") {
+			out = append(out, e)
+		}
+	}
+	return out
 }
 
 func (r *Run) Now() time.Time { return time.Now() }
